@@ -89,6 +89,9 @@ static Cmp compare(const PEvent & pe, const ref::Event & re, bool is_y90)
         if (!(same_mom(a, b2) && same_mom(a2, b))) fail("momentum", "pair momenta differ at particle " + std::to_string(i));
       }
       if (!y90pair && (!same_time(a.t, b.t) || !same_time(a2.t, b2.t))) fail("time", "pair times differ at particle " + std::to_string(i));
+      // the revised Y90 block draws its deviates in another order, so its level-lifetime draw cannot be compared with the reference's; what
+      // the revision leaves intact is that the two members of the pair leave at ONE instant (zero increment in the reference)
+      if (y90pair && a.t != a2.t) fail("time", "Y90 internal pair: e- at " + jnum(a.t) + " s, e+ at " + jnum(a2.t) + " s - the reference emits the pair at one instant");
       c.pair_swaps++; i++; continue;
     }
     if (a.code != b.code) { fail("species", "species differ at particle " + std::to_string(i) + " port=" + std::to_string(a.code) + " ref=" + std::to_string(b.code)); return c; }
